@@ -2,7 +2,7 @@
 From Coq Require Import Ascii String List Bool Arith ZArith NArith QArith Qabs.
 From PTBase Require Import Exn PyStr PyNum PyVal Fmt FixedFormat.
 From Gen Require Import GenTables.
-From P Require Import Main Digits ReadBack Round QVal FieldRB.
+From P Require Import Main Digits ReadBack Round QVal FieldRB Fits.
 Import ListNotations.
 
 (** finite obligation over the regenerated tables: every width non-zero, precision
@@ -125,3 +125,40 @@ Theorem record_read_back_any_spec : forall rf specs vals l rest,
     exists r, nth_error (parse_string rf specs (concat l ++ rest)%list) i = Some r /\ reads_back f v r.
 Proof. exact record_read_back_gen. Qed.
 Print Assumptions record_read_back_any_spec.
+
+(** ** which values fit (the lattice of the quantifier in closed form); what does not fit
+    is refused loudly (integers, names) or handed to the precision-reduction loop (reals) *)
+
+(** a 'd' field of width W >= 1 accepts exactly -10^(W-1) < z < 10^W, else ValueError *)
+Theorem int_fits_characterised : forall f z, ft f = Td -> (1 <= width f)%nat ->
+  let W := Z.of_nat (width f) in
+  ((- 10 ^ (W - 1) < z < 10 ^ W)%Z /\ fmt_field f (XInt z) = Ok (fmt_int (fw f) z)) \/
+  (~ (- 10 ^ (W - 1) < z < 10 ^ W)%Z /\ fmt_field f (XInt z) = Raise ValueError).
+Proof. exact int_fits_iff. Qed.
+Print Assumptions int_fits_characterised.
+
+(** an 's' field accepts exactly the names no longer than its width, else ValueError *)
+Theorem str_fits_characterised : forall f x, ft f = Ts ->
+  ((length x <= width f)%nat /\ fmt_field f (XStr x) = Ok (pad (fw f) x)) \/
+  ((width f < length x)%nat /\ fmt_field f (XStr x) = Raise ValueError).
+Proof. exact str_fits_iff. Qed.
+Print Assumptions str_fits_characterised.
+
+(** an 'e' field writes a real at full precision exactly when sign + mantissa + exponent
+    digits (e_width) fit; otherwise the result is that of the fit_value loop *)
+Theorem real_e_fits_characterised : forall f ng m e, ft f = Te -> (0 <= prec f)%Z -> (0 <= m)%Z ->
+  let k := snd (e_parts (prec f) m e) in
+  ((e_width (prec f) ng k <= Z.abs (fw f))%Z /\ fmt_field f (XReal ng m e) = Ok (fmt_e (fw f) (prec f) ng m e)) \/
+  ((Z.abs (fw f) < e_width (prec f) ng k)%Z /\ fmt_field f (XReal ng m e) = fit_loop f (XReal ng m e) (Z.to_nat (prec f))).
+Proof. exact real_e_fits_iff. Qed.
+Print Assumptions real_e_fits_characterised.
+
+(** the tight real fields of the tables (width = precision + 6: 10.4e, 15.9e, 20.14e ...)
+    keep full precision exactly for non-negative values with a two-digit exponent: any
+    negative number and any three-digit exponent loses digits there *)
+Theorem tight_e_field_fits_characterised : forall f ng m e,
+  ft f = Te -> (0 < prec f)%Z -> Z.abs (fw f) = (prec f + 6)%Z -> (0 <= m)%Z ->
+  let k := snd (e_parts (prec f) m e) in
+  (fmt_field f (XReal ng m e) = Ok (fmt_e (fw f) (prec f) ng m e) <-> ng = false /\ (Z.abs k <= 99)%Z).
+Proof. exact tight_e_field_fits. Qed.
+Print Assumptions tight_e_field_fits_characterised.
